@@ -286,3 +286,5 @@ package notify
 //@   at call nflog.QGroupKey assert [this-group] arg0 == ret("notify.GroupKey")
 //@   ensures [passes-batch-iff-told-to-notify] called("needsUpdate") ==> result2 == nil && (ret("needsUpdate") != ReasonDoNotNotify ? result1 == alerts : result1 == nil)
 //@   ensures [no-decision-no-notification] !called("needsUpdate") ==> result1 == nil && result2 != nil
+//@   ensures [complete-context-decides] called("notify.GroupKey") && ret1("notify.GroupKey") && called("notify.RepeatInterval") && ret1("notify.RepeatInterval") && called("NotificationLog).Query")
+//@             && (ret1("NotificationLog).Query") == nil || ret("errors.Is")) && len(ret("NotificationLog).Query")) <= 1 ==> called("needsUpdate")
